@@ -81,6 +81,8 @@ def cases(tier, seed):
                        'framing': ['new', 'old', 'partial'][i % 3], 'sed': i % 7 == 3, 'lit_framing': ['new', 'old'][i % 2]})
             i += 1
     cs.append({'d': 'B2'})
+    for i in range(4 if tier == 'quick' else 40):
+        cs.append({'d': 'R', 'i': i, 'seed': seed})
     # passphrase session-key packets whose wrapping cipher differs from the cipher of the data (what `gpg --symmetric --encrypt` writes)
     wrap = [7, 9, 3, 8, 13, 2, 11]
     for w in wrap:
@@ -95,7 +97,7 @@ def run_case(ctx, d):
     import pgpy
     with warnings.catch_warnings():
         warnings.simplefilter('ignore')
-        {'A': _A, 'B': _B, 'B2': _B2, 'B3': _B3, 'G': _G, 'refuse': _refuse}[d['d']](ctx, d, pgpy)
+        {'A': _A, 'B': _B, 'B2': _B2, 'B3': _B3, 'G': _G, 'refuse': _refuse, 'R': _R}[d['d']](ctx, d, pgpy)
 
 
 def _refuse(ctx, d, pgpy):
@@ -204,6 +206,80 @@ def _A(ctx, d, pgpy):
         ctx.nontrivial(d)
     if len(ctx.samples) < 4:
         ctx.sample({'case': d, 'packets': [p.tag for p in wire.split(raw)], 'first_octets': hx(raw[:40])})
+
+
+def _R(ctx, d, pgpy):
+    """object reuse: the same plaintext object encrypted separately to different recipients, the same key objects decrypting a sequence of
+    different messages (their own and other people's), the object returned by encrypt() used directly, copies, repeated decryption; nothing
+    may carry over from one operation to the next and no operation may alter its inputs"""
+    import copy
+    from pgpy.constants import SymmetricKeyAlgorithm, CompressionAlgorithm
+    r = ctx.rng('R', d['i'], d['seed'])
+    names = r.sample(encwork.RECIPIENTS, 3)
+    keys = [encwork.recipient(n) for n in names]
+    items = []
+    for j in range(6):
+        body = r.choice(['ascii', 'text', 'binary', 'one', 'empty'])
+        msg, content = encwork.make_message({'body': body, 'comp': r.choice(encwork.COMPRESSIONS)}, r)
+        before = bytes(msg)
+        fields = encwork.msg_fields(msg)
+        # the same plaintext object goes to two recipients separately, and to a passphrase
+        for who in r.sample(range(3), 2) + ['pw']:
+            cname = r.choice(list(encwork.CIPHERS))
+            calg = getattr(SymmetricKeyAlgorithm, cname)
+            if who == 'pw':
+                enc = msg.encrypt('pw %d' % j, cipher=calg)
+            else:
+                enc = keys[who][0].pubkey.encrypt(msg, cipher=calg)
+            if bytes(msg) != before:
+                ctx.fail('encrypt-altered-its-plaintext-object', {'body': body, 'recipient': str(who)})
+            items.append((enc, who, j, fields, cname, bytes(enc)))
+    r.shuffle(items)
+    for enc, who, j, fields, cname, raw in items:
+        forms = [('direct', enc), ('copy', copy.copy(enc)), ('reparsed', pgpy.PGPMessage.from_blob(raw))]
+        for fname, obj in forms:
+            for attempt in range(2):
+                for idx in range(3):
+                    if who == 'pw':
+                        continue
+                    ctx.count('evaluations')
+                    k = keys[idx][0]
+                    try:
+                        dec = k.decrypt(obj)
+                    except Exception as e:
+                        if idx == who:
+                            ctx.fail('pgpy-cannot-decrypt-own-output', {'form': fname, 'attempt': attempt, 'cipher': cname, 'recipient': names[idx], 'err': '%s: %s' % (type(e).__name__, str(e)[:160])})
+                        else:
+                            ctx.count('reuse_foreign_refused')
+                        continue
+                    if idx != who:
+                        ctx.fail('decrypted-with-a-key-it-was-not-encrypted-to', {'form': fname, 'to': names[who], 'with': names[idx]})
+                    elif encwork.msg_fields(dec) != fields:
+                        ctx.fail('decrypted-message-differs', {'form': fname, 'attempt': attempt, 'cipher': cname, 'recipient': names[idx], 'reuse': True})
+                    else:
+                        ctx.count('pgpy_roundtrips')
+                        ctx.count('reuse_roundtrips')
+                if who == 'pw':
+                    ctx.count('evaluations')
+                    for pw, good in (('pw %d' % ((j + 1) % 6), False), ('pw %d' % j, True)):
+                        try:
+                            dec = obj.decrypt(pw)
+                        except Exception as e:
+                            if good:
+                                ctx.fail('pgpy-cannot-decrypt-own-output', {'form': fname, 'attempt': attempt, 'cipher': cname, 'recipient': 'passphrase', 'err': '%s: %s' % (type(e).__name__, str(e)[:160])})
+                            else:
+                                ctx.count('reuse_foreign_refused')
+                            continue
+                        if not good:
+                            ctx.fail('decrypted-with-a-wrong-passphrase', {'form': fname, 'cipher': cname})
+                        elif encwork.msg_fields(dec) != fields:
+                            ctx.fail('decrypted-message-differs', {'form': fname, 'attempt': attempt, 'cipher': cname, 'recipient': 'passphrase', 'reuse': True})
+                        else:
+                            ctx.count('pgpy_roundtrips')
+                            ctx.count('reuse_roundtrips')
+                if bytes(obj) != raw:
+                    ctx.fail('decrypt-altered-the-encrypted-message-object', {'form': fname, 'attempt': attempt, 'cipher': cname})
+    ctx.nontrivial(d)
 
 
 def _B(ctx, d, pgpy):
